@@ -122,12 +122,13 @@ static void iso_run(int h, uint64_t seed, IsoFn fn, void *arg, int timeout_s) {
             unlink(errpath); die("child harness error in history %d", h);
         }
         g_iso_crashes++;
-        char kind[32] = "crash", site[128] = "unknown", line[1024], first[32][200]; int nfirst = 0, leak = 0;
+        char kind[32] = "crash", site[128] = "unknown", line[1024], first[32][200], ubmsg[80] = ""; int nfirst = 0, leak = 0;
         if (WIFSIGNALED(st) && WTERMSIG(st) == SIGALRM) strcpy(kind, "timeout");
         else if (WIFSIGNALED(st)) snprintf(kind, sizeof kind, "signal%d", WTERMSIG(st));
         FILE *e = fopen(errpath, "r");
         if (e) {
-            char frame_site[128] = "";
+            char frame_site[128] = "", ubsan_loc[160] = "";
+            ubmsg[0] = 0;
             while (fgets(line, sizeof line, e)) {
                 line[strcspn(line, "\n")] = 0;
                 if (nfirst < 32 && line[0]) { snprintf(first[nfirst], sizeof first[0], "%s", line); nfirst++; }
@@ -135,7 +136,16 @@ static void iso_run(int h, uint64_t seed, IsoFn fn, void *arg, int timeout_s) {
                 if (!frame_site[0] && (q = strstr(line, " in ")) && strstr(line, "/repo/")) sscanf(q + 4, "%127s", frame_site);
                 if (strstr(line, "LeakSanitizer")) leak = 1;
                 if (strstr(line, "ERROR: AddressSanitizer")) strcpy(kind, "asan");
-                if (strstr(line, "runtime error:")) strcpy(kind, "ubsan");
+                if ((q = strstr(line, ": runtime error:"))) {
+                    strcpy(kind, "ubsan");
+                    if (!ubmsg[0]) { snprintf(ubmsg, sizeof ubmsg, "%.60s", q + 17); for (char *c3 = ubmsg; *c3; c3++) if (!isalnum((unsigned char)*c3)) *c3 = '-'; }
+                    if (!ubsan_loc[0]) {                       /* "<file>:<line>:<col>: runtime error: ..." -> "<file>:<line>" */
+                        size_t n = (size_t)(q - line); if (n >= sizeof ubsan_loc) n = sizeof ubsan_loc - 1;
+                        memcpy(ubsan_loc, line, n); ubsan_loc[n] = 0;
+                        char *c2 = strrchr(ubsan_loc, ':'); if (c2) *c2 = 0;
+                        char *sl = strstr(ubsan_loc, "/src/"); if (sl) memmove(ubsan_loc, sl + 5, strlen(sl + 5) + 1);
+                    }
+                }
                 if (strstr(line, "VERIF-STALEJMP")) strcpy(kind, "stalejmp");
                 if ((q = strstr(line, "SUMMARY:"))) {
                     char *in = strstr(q, " in ");
@@ -145,11 +155,12 @@ static void iso_run(int h, uint64_t seed, IsoFn fn, void *arg, int timeout_s) {
             fclose(e);
             if (leak) strcpy(kind, "lsan");
             if (!strcmp(site, "unknown") && frame_site[0]) strcpy(site, frame_site);
+            if (!strcmp(site, "unknown") && ubsan_loc[0]) snprintf(site, sizeof site, "%s", ubsan_loc);
         }
         unlink(errpath);
         char sig[200]; iso_sig(sig, sizeof sig, kind, site);
         long n = g_iso->reqlen; if (n > (long)sizeof g_iso->req) n = sizeof g_iso->req;
-        tr_begin("san hist=%d attempt=%d idx=%ld kind=%s site=%s sig=%s status=%d", h, attempt, g_iso->idx, kind, site, sig,
+        tr_begin("san hist=%d attempt=%d idx=%ld kind=%s site=%s sig=%s msg=%s status=%d", h, attempt, g_iso->idx, kind, site, sig, ubmsg[0] ? ubmsg : "-",
                  WIFEXITED(st) ? WEXITSTATUS(st) : -WTERMSIG(st));
         trhex("req", g_iso->req, (size_t)n); tr_end();
         for (int i = 0; i < nfirst; i++) {
@@ -631,6 +642,258 @@ static void c20_history(int h, void *arg) {
 }
 static void scen_c20(int histories, int maxops) {
     for (int h = 0; h < histories; h++) iso_run(h, rnd64(), c20_history, &maxops, 300);
+}
+
+/* =====================================================  C19  ===================================================== */
+/* model-free oracles traced as digests / flags; the Lean checker replays them through Model.Tpm12.Persist */
+static void c19_sha(const uint8_t *p, uint32_t n, char out[41]) {
+    uint8_t md[20]; SHA1(p, n, md);
+    for (int i = 0; i < 20; i++) sprintf(out + 2 * i, "%02x", md[i]);
+}
+static void c19_live_perm(char out[41]) {       /* digest of TPMLIB_GetState(PERMANENT) of the running TPM */
+    unsigned char *pb = NULL; uint32_t pl = 0;
+    TPM_RESULT r = TPMLIB_GetState(TPMLIB_STATE_PERMANENT, &pb, &pl);
+    if (r != TPM_SUCCESS || !pb) { snprintf(out, 41, "getstate-error-%u", r); free(pb); return; }
+    c19_sha(pb, pl, out); free(pb);
+}
+static void c19_stored_perm(char out[41]) {
+    if (!g_store[ST_PERM].present) { strcpy(out, "absent"); return; }
+    c19_sha(g_store[ST_PERM].p, g_store[ST_PERM].n, out);
+}
+/* one command with the write-through observables */
+static Rsp c19_cmd(Buf *b, const char *name) {
+    b_put32(b, 2, (uint32_t)b->n);
+    Rsp z; memset(&z, 0, sizeof z); z.rc = 0xFFFFFFFF;
+    if (iso_before(b->p, b->n)) { tr("skipped idx=%ld %s", g_iso->idx - 1, name); return z; }
+    long st0 = g_store_calls, ld0 = g_load_calls, ff0 = g_fault_fired;
+    Rsp r = run_raw(b->p, (uint32_t)b->n);
+    iso_after();
+    char live[48], stored[48];
+    c19_live_perm(live); c19_stored_perm(stored);
+    tr("cmd name=%s ord=%u ret=%u rc=%u stores=%ld loads=%ld fault=%ld live=%s stored=%s", name, b->n >= 10 ? g32(b->p + 6) : 0, r.ret, r.rc,
+       g_store_calls - st0, g_load_calls - ld0, g_fault_fired - ff0, live, stored);
+    return r;
+}
+/* read-only battery: digest of the answers of a fixed list of read-only commands */
+static void c19_battery(Buf *b, const char *phase) {
+    SHA_CTX c; SHA1_Init(&c); int n = 0, fails = 0;
+#define BAT() do { b_put32(b, 2, (uint32_t)b->n); Rsp r = run_raw(b->p, (uint32_t)b->n); SHA1_Update(&c, r.p, r.len); n++; if (r.rc) fails++; } while (0)
+    for (uint32_t i = 0; i < 24; i++) { t12_begin(b, T12_TAG0, T12_ORD_PcrRead); b_u32(b, i); BAT(); }
+    static const uint32_t caps[][2] = {{4, 0x108}, {4, 0x109}, {5, 0x101}, {5, 0x103}, {5, 0x104}, {5, 0x107}, {5, 0x10C}, {5, 0x10F}, {5, 0x110},
+                                       {5, 0x111}, {5, 0x114}, {5, 0x117}, {5, 0x122}, {5, 0x123}, {5, 0x124}, {0x1A, 0}, {0xD, 0}, {0x19, 0}};
+    for (size_t k = 0; k < sizeof caps / sizeof caps[0]; k++) {
+        t12_begin(b, T12_TAG0, T12_ORD_GetCapability); b_u32(b, caps[k][0]);
+        if (caps[k][0] == 4 || caps[k][0] == 5) { b_u32(b, 4); b_u32(b, caps[k][1]); } else b_u32(b, 0);
+        BAT();
+    }
+    for (uint32_t i = 0; i < 4; i++) {                         /* NV public data and contents */
+        t12_begin(b, T12_TAG0, T12_ORD_GetCapability); b_u32(b, 0x11); b_u32(b, 4); b_u32(b, 0x00011200u + i); BAT();
+        t12_begin(b, T12_TAG0, T12_ORD_NV_ReadValue); b_u32(b, 0x00011200u + i); b_u32(b, 0); b_u32(b, 8); BAT();
+    }
+    for (uint32_t i = 0; i < 4; i++) { t12_begin(b, T12_TAG0, T12_ORD_ReadCounter); b_u32(b, i); BAT(); }
+    t12_begin(b, T12_TAG0, T12_ORD_GetCapability); b_u32(b, 0x14); b_u32(b, 4); b_u32(b, 2); BAT();   /* loaded auth session handles */
+#undef BAT
+    uint8_t md[20]; SHA1_Final(md, &c);
+    tr_begin("battery phase=%s n=%d errors=%d", phase, n, fails); trhex("sha", md, 20); tr_end();
+}
+static const enum TPMLIB_StateType c19_ty[3] = {TPMLIB_STATE_PERMANENT, TPMLIB_STATE_VOLATILE, TPMLIB_STATE_SAVE_STATE};
+static const char *c19_tyname[3] = {"perm", "vol", "save"};
+/* suspend/resume through the three blobs; compares the blobs re-read after the resume with the ones set */
+static int c19_suspend_resume(Buf *b) {
+    unsigned char *blob[3] = {0}, *after[3] = {0}; uint32_t len[3] = {0}, alen[3] = {0}; TPM_RESULT g[3], sres[3], ar[3], mi;
+    c19_battery(b, "before");
+    for (int k = 0; k < 3; k++) g[k] = TPMLIB_GetState(c19_ty[k], &blob[k], &len[k]);
+    TPMLIB_Terminate();
+    int with_storage = chance(50);
+    if (!with_storage) for (int k = 0; k < 3; k++) blob_clear(&g_store[k]);        /* the blobs alone must carry the state */
+    for (int k = 0; k < 3; k++) sres[k] = g[k] == TPM_SUCCESS ? TPMLIB_SetState(c19_ty[k], blob[k], len[k]) : 0xFFFF;
+    if (iso_before("MainInit-after-SetState", 23)) { for (int k = 0; k < 3; k++) free(blob[k]); return 0; }
+    mi = TPMLIB_MainInit(); iso_after();
+    int eq[3] = {0, 0, 0};
+    if (mi == TPM_SUCCESS) for (int k = 0; k < 3; k++) {
+        ar[k] = TPMLIB_GetState(c19_ty[k], &after[k], &alen[k]);
+        eq[k] = ar[k] == TPM_SUCCESS && g[k] == TPM_SUCCESS && alen[k] == len[k] && !memcmp(after[k], blob[k], len[k]);
+    }
+    tr("resume get=%u/%u/%u set=%u/%u/%u maininit=%u storage=%d eqperm=%d eqvol=%d eqsave=%d lens=%u/%u/%u", g[0], g[1], g[2], sres[0], sres[1], sres[2], mi,
+       with_storage, eq[0], eq[1], eq[2], len[0], len[1], len[2]);
+    for (int k = 0; k < 3; k++) { free(blob[k]); free(after[k]); }
+    if (mi != TPM_SUCCESS) return 0;
+    c19_battery(b, "after");
+    char live[48], stored[48]; c19_live_perm(live); c19_stored_perm(stored);
+    tr("sync live=%s stored=%s", live, stored);
+    return 1;
+}
+/* power cut: Terminate, MainInit from what the store callback holds */
+static int c19_powercut(Buf *b) {
+    c19_battery(b, "precut");
+    TPMLIB_Terminate();
+    blob_clear(&g_store[ST_VOL]);
+    if (iso_before("MainInit-after-powercut", 23)) return 0;
+    TPM_RESULT mi = TPMLIB_MainInit(); iso_after();
+    tr("restart ret=%u", mi);
+    if (mi != TPM_SUCCESS) return 0;
+    t12_begin(b, T12_TAG0, T12_ORD_Startup); b_u16(b, 1); c19_cmd(b, "startup");
+    char live[48], stored[48]; c19_live_perm(live); c19_stored_perm(stored);
+    tr("sync live=%s stored=%s", live, stored);
+    return 1;
+}
+/* blob mutations through SetState: every mutant must be rejected or accepted without a memory error; afterwards a
+ * normal MainInit from storage must still work and give the same battery */
+static int c19_mutations(Buf *b, int nmut) {
+    unsigned char *blob[3] = {0}; uint32_t len[3] = {0};
+    c19_battery(b, "premut");
+    for (int k = 0; k < 3; k++) if (TPMLIB_GetState(c19_ty[k], &blob[k], &len[k]) != TPM_SUCCESS) { tr("mutskip"); for (int j = 0; j <= k; j++) free(blob[j]); return 1; }
+    TPMLIB_Terminate();
+    for (int m = 0; m < nmut; m++) {
+        int k = rnd(3); uint32_t n = len[k]; if (!n) continue;
+        uint8_t *mu = malloc(n + 64); memcpy(mu, blob[k], n); const char *kind; uint32_t pos = 0, mlen = n;
+        switch (rnd(6)) {
+        case 0: kind = "trunc"; mlen = rnd(n); break;
+        case 1: kind = "flip"; pos = rnd(n); mu[pos] ^= (uint8_t)(1u << rnd(8)); break;
+        case 2: kind = "byte"; pos = rnd(n); mu[pos] = (uint8_t)rnd64(); break;
+        case 3: kind = "ff32"; pos = n >= 4 ? rnd(n - 3) : 0; for (uint32_t j = pos; j < pos + 4 && j < n; j++) mu[j] = 0xff; break;
+        case 4: kind = "extend"; for (int j = 0; j < 64; j++) mu[n + j] = (uint8_t)rnd64(); mlen = n + 1 + rnd(63); break;
+        default: kind = "headflip"; pos = rnd(n < 40 ? n : 40); mu[pos] ^= (uint8_t)(1u << rnd(8)); break;
+        }
+        uint8_t *exact = malloc(mlen ? mlen : 1); memcpy(exact, mu, mlen); free(mu);      /* exact-size copy: ASan sees over-reads */
+        TPM_RESULT pre = TPM_SUCCESS;
+        if (k != 0 && chance(70)) pre = TPMLIB_SetState(TPMLIB_STATE_PERMANENT, blob[0], len[0]);   /* else the permanent state comes from storage */
+        char lab[64]; snprintf(lab, sizeof lab, "SetState-%s-%s-%u-%u", c19_tyname[k], kind, pos, mlen);
+        if (iso_before(lab, strlen(lab))) { free(exact); continue; }
+        TPM_RESULT sr = TPMLIB_SetState(c19_ty[k], exact, mlen); iso_after();
+        int same = mlen == n && !memcmp(exact, blob[k], n);
+        free(exact);
+        TPM_RESULT mi = 0xFFFF;
+        if (sr == TPM_SUCCESS && !same) {           /* accepted mutant: the TPM must come up (or refuse) without a memory error */
+            snprintf(lab, sizeof lab, "MainInit-mutant-%s-%s-%u-%u", c19_tyname[k], kind, pos, mlen);
+            if (!iso_before(lab, strlen(lab))) {
+                Blob keep[3] = {{0}}; for (int j = 0; j < 3; j++) if (g_store[j].present) blob_set(&keep[j], g_store[j].p, g_store[j].n);
+                mi = TPMLIB_MainInit(); iso_after();
+                if (mi == TPM_SUCCESS) { t12_begin(b, T12_TAG0, T12_ORD_Startup); b_u16(b, 1); b_put32(b, 2, (uint32_t)b->n); run_raw(b->p, (uint32_t)b->n);
+                                         for (uint32_t i = 0; i < 24; i += 5) { t12_begin(b, T12_TAG0, T12_ORD_PcrRead); b_u32(b, i); b_put32(b, 2, (uint32_t)b->n); run_raw(b->p, (uint32_t)b->n); } }
+                TPMLIB_Terminate();
+                for (int j = 0; j < 3; j++) { if (keep[j].present) blob_set(&g_store[j], keep[j].p, keep[j].n); else blob_clear(&g_store[j]); blob_clear(&keep[j]); }
+            }
+        }
+        tr("mut type=%s kind=%s pos=%u len=%u of=%u pre=%u ret=%u same=%d maininit=%u", c19_tyname[k], kind, pos, mlen, n, pre, sr, same, mi);
+        for (int j = 0; j < 3; j++) TPMLIB_SetState(c19_ty[j], NULL, 0);       /* drop whatever is cached */
+    }
+    /* the original blobs must still be accepted and a normal start must work */
+    TPM_RESULT sres[3];
+    for (int k = 0; k < 3; k++) sres[k] = TPMLIB_SetState(c19_ty[k], blob[k], len[k]);
+    for (int k = 0; k < 3; k++) free(blob[k]);
+    if (iso_before("MainInit-after-mutations", 24)) return 0;
+    TPM_RESULT mi = TPMLIB_MainInit(); iso_after();
+    tr("aftermut set=%u/%u/%u maininit=%u", sres[0], sres[1], sres[2], mi);
+    if (mi != TPM_SUCCESS) return 0;
+    c19_battery(b, "postmut");
+    char live[48], stored[48]; c19_live_perm(live); c19_stored_perm(stored);
+    tr("sync live=%s stored=%s", live, stored);
+    return 1;
+}
+/* scripted blob witnesses on a TPM without NV indices: the permanent blob then ends with
+ * [TPM_TAG_NVSTATE_NV_V2 = 00 02][nvIndexCount = 00 00 00 00][20-byte integrity digest]; overwrite the count.
+ * 0xFFFFFFFF: the array allocation is refused but the count stays; 0x02000001: count * sizeof(entry) wraps to 128 in 32 bits */
+static int c19_scripted_nvcount(void) {
+    unsigned char *pb = NULL; uint32_t pl = 0;
+    if (TPMLIB_GetState(TPMLIB_STATE_PERMANENT, &pb, &pl) != TPM_SUCCESS) return 1;
+    TPMLIB_Terminate();
+    static const uint32_t counts[] = {0xFFFFFFFFu, 0x02000001u, 0x00000400u, 0x00000401u};
+    if (pl > 30 && pb[pl - 26] == 0 && pb[pl - 25] == 2 && g32(pb + pl - 24) == 0) {
+        for (size_t k = 0; k < sizeof counts / sizeof counts[0]; k++) {
+            uint8_t *mu = malloc(pl); memcpy(mu, pb, pl);
+            mu[pl - 24] = counts[k] >> 24; mu[pl - 23] = counts[k] >> 16; mu[pl - 22] = counts[k] >> 8; mu[pl - 21] = counts[k];
+            char lab[64]; snprintf(lab, sizeof lab, "SetState-perm-nvcount-%08x", counts[k]);
+            if (!iso_before(lab, strlen(lab))) {
+                TPM_RESULT sr = TPMLIB_SetState(TPMLIB_STATE_PERMANENT, mu, pl); iso_after();
+                tr("mut type=perm kind=nvcount pos=%u len=%u of=%u pre=0 ret=%u same=0 maininit=65535", pl - 24, pl, pl, sr);
+            }
+            free(mu);
+            for (int j = 0; j < 3; j++) TPMLIB_SetState(c19_ty[j], NULL, 0);
+        }
+    }
+    free(pb);
+    if (iso_before("MainInit-after-nvcount", 22)) return 0;
+    TPM_RESULT mi = TPMLIB_MainInit(); iso_after();
+    tr("aftermut set=0/0/0 maininit=%u", mi);
+    return mi == TPM_SUCCESS;
+}
+/* a state-changing or read-only command chosen at random */
+static void c19_random_cmd(Buf *b) {
+    uint8_t d[64];
+    for (int i = 0; i < 64; i++) d[i] = (uint8_t)rnd64();
+    switch (rnd(22)) {
+    case 0: case 1: t12_begin(b, T12_TAG0, T12_ORD_Extend); b_u32(b, chance(90) ? rnd(24) : 24 + rnd(4)); b_bytes(b, d, 20); c19_cmd(b, "extend"); break;
+    case 2: t12_begin(b, T12_TAG0, T12_ORD_PcrRead); b_u32(b, rnd(25)); c19_cmd(b, "pcrread"); break;
+    case 3: case 4: case 5: {   /* NV define: new, redefinition, deletion (size 0), refused attributes, too large */
+        uint32_t idx = 0x00011200u + rnd(4);
+        /* no READ_STCLEAR / WRITE_STCLEAR areas: their bReadSTClear/bWriteSTClear flags are volatile by specification but are
+           serialized into the permanent blob, which would make "live blob = stored blob" fail for a reason the property does not mean */
+        uint32_t at = (uint32_t[]){0x10001, 0x10001, 0x1, 0x2001, 0x8001, 0x0, 0x6, 0x60000, 0x20001, 0x40001}[rnd(10)];
+        uint32_t sz = (uint32_t[]){8, 16, 40, 0, 0, 300, 0x7000, 0x10000}[rnd(8)];
+        t12_begin(b, T12_TAG0, T12_ORD_NV_DefineSpace); t12_nv_public(b, idx, at, sz); b_fill(b, 20, 1); c19_cmd(b, "nvdefine"); break; }
+    case 6: case 7: case 8: { uint32_t n = 1 + rnd(16); t12_begin(b, T12_TAG0, T12_ORD_NV_WriteValue); b_u32(b, 0x00011200u + rnd(4)); b_u32(b, rnd(8)); b_u32(b, n); b_bytes(b, d, n); c19_cmd(b, "nvwrite"); break; }
+    case 9: t12_begin(b, T12_TAG0, T12_ORD_NV_ReadValue); b_u32(b, 0x00011200u + rnd(4)); b_u32(b, rnd(8)); b_u32(b, 1 + rnd(23)); c19_cmd(b, "nvread"); break;   /* never size 0: that sets the volatile bReadSTClear, which is serialized into the permanent blob */
+    case 10: t12_begin(b, T12_TAG0, T12_TSC_PhysicalPresence); b_u16(b, (uint16_t[]){0x20, 0x08, 0x10, 0x08}[rnd(4)]); c19_cmd(b, "tscpp"); break;
+    case 11: t12_begin(b, T12_TAG0, T12_ORD_SetOwnerInstall); b_u8(b, rnd(2)); c19_cmd(b, "setownerinstall"); break;
+    case 12: t12_begin(b, T12_TAG0, T12_ORD_OIAP); c19_cmd(b, "oiap"); break;
+    case 13: t12_begin(b, T12_TAG0, T12_ORD_SHA1Start); c19_cmd(b, "sha1start"); break;
+    case 14: t12_begin(b, T12_TAG0, T12_ORD_SaveState); c19_cmd(b, "savestate"); break;
+    case 15: { uint8_t sel[3] = {0, 0, (uint8_t)(1u << rnd(8))}; t12_begin(b, T12_TAG0, T12_ORD_PCR_Reset); b_u16(b, 3); b_bytes(b, sel, 3); c19_cmd(b, "pcrreset"); break; }
+    case 16: t12_begin(b, T12_TAG0, T12_ORD_GetCapability); b_u32(b, 5); b_u32(b, 4); b_u32(b, 0x100 + rnd(0x25)); c19_cmd(b, "getcap"); break;
+    case 17: t12_begin(b, T12_TAG0, T12_ORD_SetCapability); b_u32(b, 1 + rnd(3)); b_u32(b, 4); b_u32(b, 1 + rnd(10)); b_u32(b, 1); b_u8(b, rnd(2)); c19_cmd(b, "setcap"); break;
+    case 18: t12_begin(b, T12_TAG0, T12_ORD_PhysicalSetDeactivated); b_u8(b, 0); c19_cmd(b, "setdeactivated0"); break;
+    case 19: t12_begin(b, T12_TAG0, T12_ORD_StirRandom); b_u32(b, 16); b_bytes(b, d, 16); c19_cmd(b, "stirrandom"); break;
+    case 20: t12_begin(b, T12_TAG0, T12_TSC_ResetEstablishmentBit); c19_cmd(b, "resetestablishment"); break;
+    default: t12_begin(b, T12_TAG1, T12_ORD_NV_WriteValue); b_u32(b, 0x00011200u); b_u32(b, 0); b_u32(b, 4); b_bytes(b, d, 4); c18_trailer(b); c19_cmd(b, "nvwrite-badauth"); break;
+    }
+}
+static void c19_history(int h, void *arg) {
+    int nops = *(int *)arg;
+    Buf b = {0};
+    g12_nsess = 0;
+    /* (4) storage faults during the very first MainInit of a TPM */
+    tpm12_choose(); storage_reset(); g_locality = 0; g_pp = 0;
+    if (h % 4 == 3) {
+        int which = rnd(3);
+        if (which == 0) { g_store_fail_at = 0; } else if (which == 1) { g_load_fail_at = rnd(2); g_load_fail_mode = 1; } else { g_nvinit_fail_at = 0; }
+        long ff0 = g_fault_fired;
+        if (!iso_before("MainInit-first-with-fault", 25)) {
+            TPM_RESULT mi = TPMLIB_MainInit(); iso_after();
+            tr("firstinit fault=%s fired=%ld ret=%u stored=%d", which == 0 ? "store" : which == 1 ? "load" : "nvinit", g_fault_fired - ff0, mi, g_store[ST_PERM].present);
+            TPMLIB_Terminate();
+        }
+        faults_clear(); storage_reset();
+    }
+    TPM_RESULT mi = TPMLIB_MainInit();
+    if (mi != TPM_SUCCESS) die("tpm12 maininit %u", mi);
+    { char live[48], stored[48]; c19_live_perm(live); c19_stored_perm(stored); tr("fresh live=%s stored=%s", live, stored); }
+    if (h % 4 == 0 && !c19_scripted_nvcount()) { b_free(&b); return; }
+    t12_begin(&b, T12_TAG0, T12_ORD_Startup); b_u16(&b, 1); c19_cmd(&b, "startup");
+    t12_begin(&b, T12_TAG0, T12_TSC_PhysicalPresence); b_u16(&b, 0x20); c19_cmd(&b, "tscpp");
+    t12_begin(&b, T12_TAG0, T12_TSC_PhysicalPresence); b_u16(&b, 0x08); c19_cmd(&b, "tscpp");
+    t12_begin(&b, T12_TAG0, T12_ORD_NV_DefineSpace); t12_nv_public(&b, 0x00011200u, 0x10001, 24); b_fill(&b, 20, 1); c19_cmd(&b, "nvdefine");
+    for (int i = 0; i < nops; i++) {
+        int k = rnd(100);
+        if (k < 78) c19_random_cmd(&b);
+        else if (k < 84) { if (!c19_suspend_resume(&b)) break; }
+        else if (k < 88) { if (!c19_powercut(&b)) break; }
+        else if (k < 92) { if (!c19_mutations(&b, 25)) break; }
+        else {
+            /* (4) a store (or rollback load) fault at the k-th callback from now on */
+            int kk = rnd(3);
+            if (chance(75)) { g_store_fail_at = g_store_calls + kk; tr("arm fault=store at=+%d", kk); }
+            else { g_load_fail_at = g_load_calls + kk; g_load_fail_mode = 1; tr("arm fault=load at=+%d", kk); }
+            for (int j = 0; j < 8; j++) c19_random_cmd(&b);
+            faults_clear(); tr("disarm");
+            /* the TPM may now be in its failed state: a restart from the stored blob must work */
+            if (!c19_powercut(&b)) break;
+        }
+    }
+    b_free(&b);
+}
+static void scen_c19(int histories, int nops) {
+    for (int h = 0; h < histories; h++) iso_run(h, rnd64(), c19_history, &nops, 300);
 }
 
 /* =====================================================  replay  ===================================================== */
